@@ -456,7 +456,7 @@ func (e *SpecEnv) callExpr(n *ast.CallExpr) Val {
 		switch id.Name {
 		case "len":
 			a := e.expr(n.Args[0])
-			return Val{T: e.u.lenOf(a), Ty: types.Typ[types.Int]}
+			return Val{T: e.u.lenOf(e.st, a), Ty: types.Typ[types.Int]}
 		case "cap":
 			a := e.expr(n.Args[0])
 			return Val{T: fmt.Sprintf("(s_cap %s)", a.T), Ty: types.Typ[types.Int]}
@@ -503,6 +503,15 @@ func (e *SpecEnv) callExpr(n *ast.CallExpr) Val {
 				op = ">="
 			}
 			return Val{T: fmt.Sprintf("(ite (%s %s %s) %s %s)", op, a.T, b.T, a.T, b.T), Ty: ty}
+		case "visited":
+			// visited(k): key k has been delivered by the enclosing range-over-map loop
+			ver, ok := e.vars["rangevisited"]
+			if !ok {
+				e.errf("visited(): not inside a range-over-map loop")
+				return Val{T: "false", Ty: types.Typ[types.Bool]}
+			}
+			k := e.expr(n.Args[0])
+			return Val{T: fmt.Sprintf("(rangeVisited_%s %s %s)", sanitize(e.u.em.sortOf(k.Ty)), ver.T, k.T), Ty: types.Typ[types.Bool]}
 		case "typeIs":
 			// typeIs(x, T{}): the dynamic type of interface value x is T
 			v := e.expr(n.Args[0])
@@ -688,6 +697,19 @@ func (e *SpecEnv) quantAny(kind string, n *ast.CallExpr) Val {
 	body := ne.stmts(fl.Body.List, boolT)
 	inv := e.u.em.typeInv(bv, ty)
 	if kind == "all" {
+		// explicit triggers: membership of the bound key in a map's key set or in the visited
+		// set of a range loop (the automatically chosen ones, e.g. on strlen, match poorly)
+		var pats []string
+		seenPat := map[string]bool{}
+		for _, sx := range sexprsEndingWith(body.T, bv) {
+			if (strings.HasPrefix(sx, "(rangeVisited_") || strings.HasPrefix(sx, "(select (select M_")) && !seenPat[sx] && len(pats) < 4 {
+				seenPat[sx] = true
+				pats = append(pats, ":pattern ("+sx+")")
+			}
+		}
+		if len(pats) > 0 {
+			return Val{T: fmt.Sprintf("(forall ((%s %s)) (! %s %s))", bv, e.u.em.sortOf(ty), implies(inv, body.T), strings.Join(pats, " ")), Ty: boolT}
+		}
 		return Val{T: fmt.Sprintf("(forall ((%s %s)) %s)", bv, e.u.em.sortOf(ty), implies(inv, body.T)), Ty: boolT}
 	}
 	return Val{T: fmt.Sprintf("(exists ((%s %s)) %s)", bv, e.u.em.sortOf(ty), and(inv, body.T)), Ty: boolT}
@@ -1124,6 +1146,25 @@ func (u *Unit) loopEnv(f *Frame, st *State, fn *ssa.Function, header int) *SpecE
 			vars[name] = v
 		}
 	}
+	// ghost set of visited keys of a range-over-map loop (the loop whose header calls next, else any)
+	for itv, it := range f.rangeIt {
+		t, ok := st.cells[it.cell]
+		if !ok {
+			continue
+		}
+		_, have := vars["rangevisited"]
+		mine := false
+		if header >= 0 && header < len(fn.Blocks) {
+			for _, ins := range fn.Blocks[header].Instrs {
+				if nx, ok := ins.(*ssa.Next); ok && nx.Iter == itv {
+					mine = true
+				}
+			}
+		}
+		if mine || !have {
+			vars["rangevisited"] = Val{T: t, Ty: types.Typ[types.Int]}
+		}
+	}
 	// the range index of THIS loop is the one its header block loads
 	if header >= 0 && header < len(fn.Blocks) {
 		for _, ins := range fn.Blocks[header].Instrs {
@@ -1258,4 +1299,36 @@ func (e *SpecEnv) defineRec(fobj *types.Func, rd *recDef, resTy types.Type) {
 	}
 	em.pre(fmt.Sprintf("(assert (forall ((ly Fuel) %s) (! (= %s %s) :pattern (%s))))", strings.Join(binders, " "), app("(FS ly)"), body, app("(FS ly)")))
 	em.pre(fmt.Sprintf("(assert (forall ((ly Fuel) %s) (! (= %s %s) :pattern (%s))))", strings.Join(binders, " "), app("(FS ly)"), app("ly"), app("(FS ly)")))
+}
+
+// sexprsEndingWith returns the s-expressions of t whose last argument is the atom v.
+func sexprsEndingWith(t, v string) []string {
+	var out []string
+	suffix := " " + v + ")"
+	for i := 0; ; {
+		j := strings.Index(t[i:], suffix)
+		if j < 0 {
+			break
+		}
+		end := i + j + len(suffix)
+		// walk back to the matching open parenthesis
+		depth := 0
+		start := -1
+		for k := end - 1; k >= 0; k-- {
+			if t[k] == ')' {
+				depth++
+			} else if t[k] == '(' {
+				depth--
+				if depth == 0 {
+					start = k
+					break
+				}
+			}
+		}
+		if start >= 0 {
+			out = append(out, t[start:end])
+		}
+		i = end
+	}
+	return out
 }
